@@ -41,3 +41,8 @@ Lemma gen_wrappers_checked :
   && has_body "_algorithm_setup:_Algorithm._return_results [writes only params]"
   && has_body "two_d._algorithm_setup:_Algorithm2D._return_results [writes only params]" = true.
 Proof. vm_compute. reflexivity. Qed.
+
+(* every write-site body treats all possibly-caller-owned persistent names as caller-owned on entry, and at every
+   exit and every point where a raise may cut it no OTHER persistent name may denote a caller-owned buffer *)
+Lemma gen_persist_ok : forallb (persist_ok caller_names) write_bodies = true.
+Proof. vm_compute. reflexivity. Qed.
